@@ -12,13 +12,13 @@ import (
 // Agreement under f < n/3 rests on two obligations of every correct validator,
 // both decidable from the harness' own record of the wire:
 //
-//  R2  it precommits a block Y in round r only if more than two thirds of the
-//      validators prevoted Y in round r (a polka for Y at r is on the wire
-//      before the precommit is);
-//  R1  after precommitting block X in round r it prevotes anything else (nil
-//      or another block) in a later round r' only if, in some round r'' with
-//      r < r'' <= r', more than two thirds prevoted a value other than X
-//      (that is the only thing that may release the lock on X).
+//	R2  it precommits a block Y in round r only if more than two thirds of the
+//	    validators prevoted Y in round r (a polka for Y at r is on the wire
+//	    before the precommit is);
+//	R1  after precommitting block X in round r it prevotes anything else (nil
+//	    or another block) in a later round r' only if, in some round r'' with
+//	    r < r'' <= r', more than two thirds prevoted a value other than X
+//	    (that is the only thing that may release the lock on X).
 //
 // A run in which a correct validator breaks R1 or R2 is a run in which the
 // adversary (who controls delivery and f validators) can complete a
